@@ -72,8 +72,9 @@ func c11Snap(root string, r *include.ResolvedJournal, errs []include.LoadError) 
 		s.Primary = r.Primary
 	}
 	for _, e := range errs {
-		s.Errs = append(s.Errs, fmt.Sprintf("kind=%d path=%s msg=%s range=%d:%d-%d:%d", e.Kind, strings.ReplaceAll(e.Path, root, ""),
-			strings.ReplaceAll(e.Message, root, ""), e.Range.Start.Line, e.Range.Start.Column, e.Range.End.Line, e.Range.End.Column))
+		s.Errs = append(s.Errs, fmt.Sprintf("kind=%d path=%s msg=%s range=%d:%d-%d:%d in=%s via=%d:%d", e.Kind, strings.ReplaceAll(e.Path, root, ""),
+			strings.ReplaceAll(e.Message, root, ""), e.Range.Start.Line, e.Range.Start.Column, e.Range.End.Line, e.Range.End.Column,
+			strings.ReplaceAll(e.File, root, ""), e.Via.Start.Line, e.Via.Start.Column))
 	}
 	sort.Strings(s.Errs)
 	return s
